@@ -1,12 +1,16 @@
 package net
 
 import (
+	"fmt"
 	"math/rand"
+	stdnet "net"
+	"sync"
 
 	"github.com/ethereum/go-ethereum/common/hexutil"
 	"github.com/ethereum/go-ethereum/p2p/enode"
 	"github.com/holiman/uint256"
 	"github.com/zen-eth/shisui/portalwire"
+	pingext "github.com/zen-eth/shisui/portalwire/ping_ext"
 
 	"verifharness/common"
 	"verifharness/netsim"
@@ -98,6 +102,125 @@ func runInRange(w *tracelog.Writer, seed int64, n int) error {
 		st.SetRadius(r)
 		id := triple(nd.P.Self().ID(), r, rng)
 		emit("api", nd.P.Self().ID(), r, id, nd.P.InRange(id))
+	}
+	// what the node ADVERTISES: the radius it reports in its PONGs (every payload type it supports) and in the PINGs it sends
+	// must be the radius of its store, as a little-endian SSZ uint256 (sweep mutant E/03-C06 wrote it big-endian)
+	rp, err := netsim.NewRawPeer(sw, "10.0.0.77", 9177, nil)
+	if err != nil {
+		return err
+	}
+	defer rp.Close()
+	var gotPing struct {
+		mu sync.Mutex
+		le []byte
+	}
+	rp.D5.RegisterTalkHandler(string(portalwire.History), func(_ *enode.Node, _ *stdnet.UDPAddr, msg []byte) []byte {
+		if len(msg) > 0 && msg[0] == portalwire.PING {
+			ping := &portalwire.Ping{}
+			if ping.UnmarshalSSZ(msg[1:]) == nil {
+				var le []byte
+				switch ping.PayloadType { // which type the node picks depends on the capabilities it has learnt from this peer
+				case pingext.ClientInfo:
+					pl := &pingext.ClientInfoAndCapabilitiesPayload{}
+					if pl.UnmarshalSSZ(ping.Payload) == nil {
+						le = pl.DataRadius[:]
+					}
+				case pingext.BasicRadius:
+					pl := &pingext.BasicRadiusPayload{}
+					if pl.UnmarshalSSZ(ping.Payload) == nil {
+						le = pl.DataRadius[:]
+					}
+				case pingext.HistoryRadius:
+					pl := &pingext.HistoryRadiusPayload{}
+					if pl.UnmarshalSSZ(ping.Payload) == nil {
+						le = pl.DataRadius[:]
+					}
+				}
+				if le != nil {
+					gotPing.mu.Lock()
+					gotPing.le = append([]byte{}, le...)
+					gotPing.mu.Unlock()
+				}
+			}
+			pl := pingext.NewClientInfoAndCapabilitiesPayload(portalwire.MaxDistance, []uint16{0, 1, 2, 65535})
+			b, _ := pl.MarshalSSZ()
+			pb, _ := (&portalwire.Pong{EnrSeq: 1, PayloadType: pingext.ClientInfo, Payload: b}).MarshalSSZ()
+			return append([]byte{portalwire.PONG}, pb...)
+		}
+		return nil
+	})
+	leToBE := func(le []byte) []int {
+		out := make([]int, len(le))
+		for i := range le {
+			out[len(le)-1-i] = int(le[i])
+		}
+		return out
+	}
+	for i := 0; i < 40; i++ {
+		r := radii()
+		if i%2 == 0 { // non-palindromic
+			var b [32]byte
+			rng.Read(b[:])
+			r = new(uint256.Int).SetBytes(b[:])
+		}
+		st.SetRadius(r)
+		rb := r.Bytes32()
+		for _, typ := range []uint16{pingext.ClientInfo, pingext.BasicRadius, pingext.HistoryRadius} {
+			var payload []byte
+			switch typ {
+			case pingext.ClientInfo:
+				pl := pingext.NewClientInfoAndCapabilitiesPayload(portalwire.MaxDistance, []uint16{0, 1, 2, 65535})
+				payload, _ = pl.MarshalSSZ()
+			case pingext.BasicRadius:
+				pl := pingext.NewBasicRadiusPayload(portalwire.MaxDistance)
+				payload, _ = pl.MarshalSSZ()
+			default:
+				pl := pingext.NewHistoryRadiusPayload(portalwire.MaxDistance, 0)
+				payload, _ = pl.MarshalSSZ()
+			}
+			pb, _ := (&portalwire.Ping{EnrSeq: 1, PayloadType: typ, Payload: payload}).MarshalSSZ()
+			resp, err := rp.D5.TalkRequest(nd.P.Self(), string(portalwire.History), append([]byte{portalwire.PING}, pb...))
+			if err != nil || len(resp) < 2 || resp[0] != portalwire.PONG {
+				continue
+			}
+			pong := &portalwire.Pong{}
+			if pong.UnmarshalSSZ(resp[1:]) != nil || pong.PayloadType != typ {
+				continue // an error payload (type not supported by this network): no radius advertised
+			}
+			var le []byte
+			switch typ {
+			case pingext.ClientInfo:
+				pl := &pingext.ClientInfoAndCapabilitiesPayload{}
+				if pl.UnmarshalSSZ(pong.Payload) == nil {
+					le = pl.DataRadius[:]
+				}
+			case pingext.BasicRadius:
+				pl := &pingext.BasicRadiusPayload{}
+				if pl.UnmarshalSSZ(pong.Payload) == nil {
+					le = pl.DataRadius[:]
+				}
+			default:
+				pl := &pingext.HistoryRadiusPayload{}
+				if pl.UnmarshalSSZ(pong.Payload) == nil {
+					le = pl.DataRadius[:]
+				}
+			}
+			if le != nil {
+				w.Emit(map[string]any{"ev": "advert", "via": fmt.Sprintf("pong/%d", typ), "radius": tracelog.Ints(rb[:]), "got": leToBE(le)})
+			}
+		}
+		if i%4 == 0 { // the node's own PING to the raw peer
+			gotPing.mu.Lock()
+			gotPing.le = nil
+			gotPing.mu.Unlock()
+			portalwire.VerifPing(nd.P, rp.Self())
+			gotPing.mu.Lock()
+			le := gotPing.le
+			gotPing.mu.Unlock()
+			if le != nil {
+				w.Emit(map[string]any{"ev": "advert", "via": "ping", "radius": tracelog.Ints(rb[:]), "got": leToBE(le)})
+			}
+		}
 	}
 	// the store RPC (portal_*Store): the verdict must be the in-range test on the content ID of the key (sweep mutant
 	// 08-C06 ran it on the key bytes); keys are searched so that the id's distance sits on either side of the radius
